@@ -2,7 +2,7 @@
 # Runs the repository's own test suite (guard off: no tags, no overlay) and
 # checks that every test of the pinned baseline (BASELINE.json stable_pass) passes.
 export GOFLAGS=-mod=mod GOPROXY=off GOSUMDB=off GOTOOLCHAIN=local
-cd /repo || exit 2
+cd "${1:-/repo}" || exit 2
 # TestServiceConnectAuthError binds the fixed TCP port 1883 and is sensitive to
 # a port still lingering from a run a moment ago: up to three attempts.
 for attempt in 1 2 3; do
